@@ -156,6 +156,10 @@ def discovery_traces(seed, count, length):
     for i in range(count):
         rng = random.Random("c09d/%s/%s" % (seed, i))
         sched = [{"t": 0, "j": 0, "op": "watch", "lst": "L1", "flt": "ALL"}]
+        overlap = i % 3 == 1       # no watch-all listener: L1 under a wildcard filter, L2 under an overlapping concrete one that it gives up
+        if overlap:
+            sched = [{"t": 0, "j": 0, "op": "watch", "lst": "L1", "flt": "F1"}, {"t": 0, "j": 0, "op": "watch", "lst": "L2", "flt": "F2"}]
+        gone2 = False
         sid = {}
         t = 0
         for _ in range(rng.randint(3, length)):
@@ -166,6 +170,10 @@ def discovery_traces(seed, count, length):
                 j = max(j, sched[-1]["j"])
             if rng.random() < 0.06:
                 sched.append({"t": t, "j": j, "op": "connlost"})
+                continue
+            if overlap and not gone2 and rng.random() < 0.2:
+                sched.append({"t": t, "j": j, "op": "unwatch", "lst": "L2", "flt": "F2"})
+                gone2 = True
                 continue
             src, mc = rng.choice(ADDRS), rng.random() < 0.6
             sid[(src, mc)] = sid.get((src, mc), 0) + 1
@@ -179,6 +187,8 @@ def discovery_traces(seed, count, length):
         for e in ev:
             if e["k"] == "in" and e["op"] == "rx":
                 for en in e["es"]:
+                    if overlap and en["svc"] == "s3":      # (not heard by L1)
+                        continue
                     if en["ttl"] == 0:
                         proj.append({"k": "in", "op": "ts_stop", "a": e["src"], "key": en["svc"], "t": e["t"]})
                     else:
@@ -186,7 +196,7 @@ def discovery_traces(seed, count, length):
             elif e["k"] == "in" and e["op"] == "connlost":
                 proj.append({"k": "in", "op": "ts_stopall", "t": e["t"]})
                 cl = True
-            elif e["k"] == "out" and e["op"] in ("offered", "stopped"):
+            elif e["k"] == "out" and e["op"] in ("offered", "stopped") and e["lst"] == "L1":
                 proj.append({"k": "out", "op": "new" if e["op"] == "offered" else "gone", "a": e["src"], "key": e["svc"], "t": e["t"]})
             elif e["k"] in ("idle", "exc"):
                 proj.append(e)
